@@ -1,5 +1,5 @@
 CONSTANTS
-  Decors = {"none", "ts_readonly", "type_override"}
+  Decors = {"none", "ts_readonly", "type_override", "ts_date"}
   Layouts = {"two", "then_word", "word_first", "subject_last", "word_last_only", "between_words"}
   EnumFieldRules = {"none", "camelCase", "SCREAMING-KEBAB-CASE"}
   Idents = {"a", "foo_bar", "foo_bar2", "r#type", "r#match", "class", "default", "x_", "_lead", "http_url_v2", "user_id", "id", "ID", "URL", "API_KEY", "userName", "HTTPServer2"}
